@@ -235,6 +235,29 @@ var Kinds = map[string][]variant{
 		{text: "x = { get a ( ) { } , set b ( import ) { } } ;"},
 		{text: "break : ;"},
 		{text: "while ( a ) { break true ; }"},
+		// ES5 7.6: an escape in an IdentifierName does not change its meaning - a ReservedWord spelled
+		// with \\uXXXX escapes is still not an Identifier (binding, parameter, label, function name,
+		// catch parameter, for-in binding positions: no reading of the word makes these valid)
+		{text: "var \\u0069f = 1 ;"},
+		{text: "var i\\u0066 ;"},
+		{text: "var \\u0069\\u0066 = 1 , b ;"},
+		{text: "var a = 1 , cl\\u0061ss = 2 ;"},
+		{text: "var tr\\u0075e ;"},
+		{text: "var \\u006eull = 1 ;"},
+		{text: "function f ( \\u0074his ) { }"},
+		{text: "function f ( a , d\\u0065fault ) { }"},
+		{text: "function whil\\u0065 ( ) { }"},
+		{text: "( function \\u0073uper ( ) { } ) ;"},
+		{text: "f\\u006fr : while ( 0 ) break f\\u006fr ;"},
+		{text: "\\u0064o : ;"},
+		{text: "try { } catch ( \\u0069n ) { }"},
+		{text: "try { } catch ( ext\\u0065nds ) { }"},
+		{text: "for ( var n\\u0065w in a ) ;"},
+		{text: "for ( var \\u0076ar = 0 ; ; ) ;"},
+		{text: "x = { set b ( \\u0069mport ) { } } ;"},
+		{text: "while ( a ) { break \\u0074rue ; }"},
+		{text: "x = function ( ) { var r\\u0065turn ; } ;"},
+		{text: "var \\u0065num , \\u0065xport ;"},
 	},
 	// 12-14, 11: token sequences no production derives
 	"grammar": {
